@@ -423,13 +423,14 @@ def report(mod, tier, seed, m, extra_cov, wall, findings, replaying=False):
     for fid, n in sorted(m['known'].items()):
         print('KNOWN-FINDING: property=%s %s: %s (%d cases this run)' % (
             prop, fid, findings.what(prop, fid), n))
-    for v in viol[:20]:
+    maxv = int(os.environ.get("VERIF_MAX_VIOLATIONS", "20"))
+    for v in viol[:maxv]:
         path = write_replay(prop, seed, tier, v)
         print('VIOLATION property=%s replay=%s' % (prop, path))
         print('  key=%s count=%d case=%s' % (v['key'], v['count'], v['case']))
         rc = 1
-    if len(viol) > 20:
-        print('  ... %d further distinct violation keys' % (len(viol) - 20))
+    if len(viol) > maxv:
+        print('  ... %d further distinct violation keys' % (len(viol) - maxv))
     for he in m['harness_errors'][:5]:
         print('HARNESS-ERROR property=%s case=%s\n%s' % (prop, he['case'], he['error']))
     if not replaying:
